@@ -107,6 +107,10 @@ pub struct ReplayFile {
     pub run_index: u64,
     pub plan: serde_json::Value,
     pub decisions: Vec<u64>,
+    /// when set, the decisions are drawn again from this seed instead of being read from
+    /// `decisions` (used for runs that aborted the process before their decisions were known)
+    #[serde(default)]
+    pub decision_seed: Option<u64>,
     pub violation: Violation,
     /// not used by replay; tells a reader what was shrunk away
     pub shrink: serde_json::Value,
